@@ -1036,6 +1036,14 @@ theorem skip_initial_list_witness :
         ((aget 1 r.1).map (·.fr), (aget 2 r.1).map (·.fr)))
       = some (some (some (.num 2)), some (some (.num 5))) := by decide
 
+/-- Scope of the start-sequence theorems (a witness about the code as it is): they speak about the
+objects of the informer's list. An object the monitor listed at T0 that is DELETED before the informer
+starts is in no list and no notification: it stays in the cache — in every snapshot — and no Deleted
+is ever emitted, although Deleted is listed. (Seen on the real code too: notes/C08.md, fifth wave.) -/
+theorem deleted_between_lists_stays_witness :
+    (startSequence { exCfg with types := [.deleted] } id [(1, exObj 1 0)] []).map
+      (fun r => ((aget 1 r.1).isSome, r.2.map Option.isSome)) = some (true, []) := by decide
+
 /-- **C08 preloaded_key_is_event_key.** However the binding spells its kind, a pre-loaded object is
 filed under the key its events are looked up by. -/
 theorem preloaded_key_is_event_key (bindingKind : String) (o : ObjRef) :
